@@ -26,7 +26,7 @@ pub type CData = i32;
 pub type Dt<K, const D: usize> = DelaunayTriangulation<K, VData, CData, D>;
 
 /// Kernels the harness drives: any kernel over f64.
-pub trait Kern<const D: usize>: Kernel<D, Scalar = f64> + 'static {
+pub trait Kern<const D: usize>: Kernel<D, Scalar = f64> + Send + 'static {
     const NAME: &'static str;
 }
 impl<const D: usize> Kern<D> for delaunay::geometry::kernel::FastKernel<f64> {
@@ -123,6 +123,8 @@ pub struct Tracer {
     pub line: usize,
     pub s: i32,
     pub tag: String,
+    /// determinism key attached to Construct events (C14); empty = not part of a determinism test
+    pub dkey: String,
     pub ceiling_ms: i64,
     last_call: Arc<Mutex<String>>,
     pub counts: HashMap<String, u64>,
@@ -165,6 +167,7 @@ impl Tracer {
             line: 0,
             s,
             tag: String::new(),
+            dkey: String::new(),
             ceiling_ms,
             last_call,
             counts: HashMap::new(),
@@ -370,6 +373,19 @@ impl Tracer {
     pub fn reset(&mut self) {
         self.reset_ids();
         self.emit("Reset", 0, json!({}), json!({}), None, false);
+    }
+
+    /// append the events of another trace (a child process), case by case: the child's events of case
+    /// k are written as an extra case with the same tag (their determinism keys tie them to the parent's)
+    pub fn append_raw_cases(&mut self, text: &str) {
+        let mut g = self.w.lock().unwrap();
+        for line in text.lines() {
+            if line.trim().is_empty() {
+                continue;
+            }
+            writeln!(g, "{line}").unwrap();
+            self.line += 1;
+        }
     }
 
     pub fn flush(&mut self) {
